@@ -237,7 +237,20 @@ func buildIntrinsics() map[string]Intrinsic {
 			m.pool.mode = int(m.concreteInt(fr, a[0].(*Term), "pool mode"))
 			return nil
 		}
+		t[p+"vGhostPoolMonitor"] = func(m *Machine, fr *Frame, fn *ssa.Function, a []Value) Value {
+			m.pool.monitor = a[0].(*Term).Val != 0
+			return nil
+		}
 		t[p+"vGhostPoolViolations"] = func(m *Machine, fr *Frame, fn *ssa.Function, a []Value) Value {
+			for _, v := range m.pool.violations {
+				m.res.Stubs["POOL: "+v]++
+			}
+			if len(m.pool.violations) > 0 {
+				if _, ok := m.classes["pool"]; !ok {
+					m.classKeys = append(m.classKeys, "pool")
+				}
+				m.classes["pool"] = m.pool.kinds[0]
+			}
 			return m.tf.Const(64, uint64(len(m.pool.violations)))
 		}
 		t[p+"vGhostPooled"] = func(m *Machine, fr *Frame, fn *ssa.Function, a []Value) Value {
@@ -269,8 +282,29 @@ func buildIntrinsics() map[string]Intrinsic {
 			m.allocLog = nil
 			return nil
 		}
+		t[p+"vGhostTrackAllocs"] = func(m *Machine, fr *Frame, fn *ssa.Function, a []Value) Value {
+			m.trackAllocs = true
+			return nil
+		}
+		t[p+"vGhostAsmOOB"] = func(m *Machine, fr *Frame, fn *ssa.Function, a []Value) Value {
+			return m.tf.Const(64, uint64(m.asmOOB))
+		}
+		t[p+"vAlign64"] = func(m *Machine, fr *Frame, fn *ssa.Function, a []Value) Value {
+			s := a[0].([]Value)
+			if len(s) == 0 {
+				return m.tf.Const(64, 0)
+			}
+			_, idx, ok := m.locateElem(&s[0])
+			if !ok {
+				m.unsupported("vAlign64 on an untracked allocation")
+			}
+			return m.tf.Const(64, uint64((64-idx%64)%64))
+		}
 		t[p+"vEngine"] = func(m *Machine, fr *Frame, fn *ssa.Function, a []Value) Value {
 			return m.tf.True
+		}
+		t[p+"vPoolViolations"] = func(m *Machine, fr *Frame, fn *ssa.Function, a []Value) Value {
+			return m.eng.intrinsics[p+"vGhostPoolViolations"](m, fr, fn, nil)
 		}
 	}
 
@@ -529,6 +563,7 @@ type poolModel struct {
 	items      map[*Value][]*pooledObj
 	pooled     map[*Value]*pooledObj // object pointer -> entry while it sits in a pool
 	violations []string
+	kinds      []string
 	monitor    bool
 }
 
@@ -586,6 +621,7 @@ func (m *Machine) poolPut(fr *Frame, pool *Value, x IfaceV) {
 	if p, ok := x.V.(*Value); ok && p != nil {
 		if prev := pm.pooled[p]; prev != nil {
 			pm.violations = append(pm.violations, fmt.Sprintf("double-put of %v (first at %s, again at %s)", x.T, prev.putAt, fr.where()))
+			pm.kinds = append(pm.kinds, "double-put:"+x.T.String())
 		}
 		pm.pooled[p] = it
 	}
@@ -600,6 +636,7 @@ func (m *Machine) checkPooledReceiver(fr *Frame, fn *ssa.Function, recv Value) {
 	}
 	if it := m.pool.pooled[p]; it != nil {
 		m.pool.violations = append(m.pool.violations, fmt.Sprintf("use-after-put: %s called on %v that was put at %s (caller %s)", fn.String(), it.v.T, it.putAt, fr.where()))
+		m.pool.kinds = append(m.pool.kinds, "use-after-put:"+it.v.T.String())
 	}
 }
 
